@@ -18,7 +18,7 @@ import CanopenModel.Codec
 
 namespace Canopen.Views
 open Canopen Canopen.Codec
-open Canopen.Gen.Datatypes (INTEGER_TYPES)
+open Canopen.Gen.Datatypes (INTEGER_TYPES SIGNED_TYPES)
 
 /-! ### Python `int` bit operations (infinite two's complement) -/
 
@@ -77,12 +77,32 @@ def decodeBits (value : Int) (bits : List Int) : Option Int :=
   | some mask, some lo => some (pyShr (pyAnd value (mask : Int)) lo.toNat)
   | _, _ => none
 
-/-- `ODVariable.encode_bits(original_value, bits, bit_value)`:
+/-- the mask arithmetic of `ODVariable.encode_bits` on a Python int:
     `temp = original & ~mask; temp |= bit_value << min(bits)` -/
 def encodeBits (orig : Int) (bits : List Int) (v : Int) : Option Int :=
   match maskOf bits, bits.min? with
   | some mask, some lo => some (pyOr (pyAnd orig (pyNot (mask : Int))) (pyShl v lo.toNat))
   | _, _ => none
+
+/-- `temp &= (1 << len(self)) - 1` when `self.data_type in SIGNED_TYPES` (`sw = some len(self)`):
+    the two's complement representation in the width of the type -/
+def toPattern (sw : Option Nat) (x : Int) : Int :=
+  match sw with
+  | some n => pyAnd x ((2 ^ n - 1 : Nat) : Int)
+  | none => x
+
+/-- `if signed and temp >> (len(self) - 1) == 1: temp -= 1 << len(self)` -/
+def fromPattern (sw : Option Nat) (x : Int) : Int :=
+  match sw with
+  | some n => if pyShr x (n - 1) = 1 then x - ((2 ^ n : Nat) : Int) else x
+  | none => x
+
+/-- `ODVariable.encode_bits(original_value, bits, bit_value)` as repaired (fix of the sign-bit
+    defect): a signed value is taken to its two's complement pattern first and the result is read
+    as a pattern again; bits set beyond the width leave a value that does not fit, exactly as for
+    an unsigned type -/
+def encodeBitsTyped (sw : Option Nat) (orig : Int) (bits : List Int) (v : Int) : Option Int :=
+  (encodeBits (toPattern sw orig) bits v).map (fromPattern sw)
 
 /-! ### keys of `Bits.__getitem__` / `__setitem__` -/
 
@@ -204,10 +224,15 @@ def getBits {σ : Type} (od : OdVar) (st : Store σ) (s : σ) (k : Key) : Option
   | some raw, some bits => decodeBits raw bits
   | _, _ => none
 
+/-- `some len(self)` when `self.data_type in SIGNED_TYPES` (generated tuple), else `none` -/
+def signedWidth (t : Nat) : Option Nat :=
+  if SIGNED_TYPES.contains t then some (bitLen (some t)) else none
+
 /-- `var.bits[key] = v`: read, `encode_bits`, write back -/
 def setBits {σ : Type} (od : OdVar) (st : Store σ) (s : σ) (k : Key) (v : Int) : Option σ :=
   match readRaw od.dtype st s, resolveKey od.bitdefs k with
-  | some raw, some bits => (encodeBits raw bits v).bind (writeRaw od.dtype st s)
+  | some raw, some bits =>
+    (encodeBitsTyped (signedWidth od.dtype) raw bits v).bind (writeRaw od.dtype st s)
   | _, _ => none
 
 /-- `var.desc` -/
@@ -248,7 +273,8 @@ def bitsObjStep {σ : Type} (od : OdVar) (st : Store σ) (b : BitsObj σ) (op : 
   match op with
   | .get k => (b, (resolveKey od.bitdefs k).bind (decodeBits b.cache))
   | .set k v =>
-    match (resolveKey od.bitdefs k).bind (fun bits => encodeBits b.cache bits v) with
+    match (resolveKey od.bitdefs k).bind
+        (fun bits => encodeBitsTyped (signedWidth od.dtype) b.cache bits v) with
     | none => (b, none)
     | some new =>
       match writeRaw od.dtype st b.store new with
